@@ -334,6 +334,27 @@ pub fn c05(out: &mut Vec<String>, rng: &mut Rng, tier: &str) {
             }
         }
     }
+    // constant and nearly constant samples of values whose reciprocal / logarithm is not exact: the one-pass
+    // variance of the transformed data can round slightly negative (it is clamped); mean, standard error and
+    // interval must still be numbers
+    for k in 1..(if tier == "thorough" { 120 } else { 40 }) {
+        let v = k as f64 * 0.37 + 0.01;
+        for n in [2usize, 3, 5, 25] {
+            if (k + n) % 3 != 0 {
+                continue;
+            }
+            let conf = rand_conf(rng);
+            out.push(harm_case::<f64>("C05", conf, &vec![v; n]));
+            out.push(geo_case::<f64>("C05", conf, &vec![v; n]));
+            out.push(harm_case::<f32>("C05", conf, &vec![v as f32; n]));
+            out.push(geo_case::<f32>("C05", conf, &vec![v as f32; n]));
+        }
+    }
+    for base in [1000.0f32, 3.3, 0.07] {
+        let xs: Vec<f32> = [0.0f32, 1e-4, 2e-4, 1e-4, 0.0].iter().map(|d| base * (1.0 + d)).collect();
+        out.push(harm_case::<f32>("C05", rand_conf(rng), &xs));
+        out.push(geo_case::<f32>("C05", rand_conf(rng), &xs));
+    }
     // very large and very small magnitudes: the reciprocals (resp. logarithms) leave the ordinary range
     for i in 0..(if tier == "thorough" { 200 } else { 40 }) {
         let n = rng.range(2, 40) as usize;
@@ -476,11 +497,21 @@ pub fn unpaired_case<F: FElem>(prop: &str, conf: Confidence, xs: &[F], ys: &[F])
         enc_cires(&s.ci_mean(conf))
     });
     let o7 = guarded(|| enc_cires(&Unpaired::<F>::ci(conf, &Sparse::of(&a, 1), &Sparse::of(&b, 6))));
+    // half of each sample through the wrapper, the other half through the mutable accessor of its statistics
+    let o8 = guarded(|| {
+        let mut s = Unpaired::<F>::default();
+        let (ha, hb) = (a.len() / 2, b.len() / 2);
+        s.extend_a(&a[..ha].to_vec()).unwrap();
+        s.extend_b(&b[..hb].to_vec()).unwrap();
+        StatisticsOps::extend(s.stats_b_mut(), &b[hb..].to_vec()).unwrap();
+        StatisticsOps::extend(s.stats_a_mut(), &a[ha..].to_vec()).unwrap();
+        format!("{} {} {}", s.stats_a().sample_count(), s.stats_b().sample_count(), enc_cires(&s.ci_mean(conf)))
+    });
     // exchanging the two samples (with the flipped confidence) must mirror the interval
     let sw = guarded(|| enc_cires(&Unpaired::<F>::ci(conf.flipped(), &b, &a)));
     format!(
-        "{} unpaired {} {} {} {} => {} | {} | {} | {} | {} | {} | {} | {}",
-        prop, F::TAG, enc_conf(&conf), enc_list(&a), enc_list(&b), o1, o2, o3, o4, o5, o6, o7, sw
+        "{} unpaired {} {} {} {} => {} | {} | {} | {} | {} | {} | {} | {} | {}",
+        prop, F::TAG, enc_conf(&conf), enc_list(&a), enc_list(&b), o1, o2, o3, o4, o5, o6, o7, sw, o8
     )
 }
 
@@ -724,6 +755,22 @@ pub fn c11(out: &mut Vec<String>, rng: &mut Rng, tier: &str) {
         for (n, k) in [(0usize, 0usize), (0, 1), (5, 6), (5, 0), (5, 1), (5, 4), (5, 5), (40, 31), (31, 40), (1, 1), (3, 2)] {
             let cls = if k > n { "InvalidSuccesses" } else if k < 2 { "TooFewSuccesses" } else if n - k < 2 { "TooFewFailures" } else { "sane" };
             out.push(expect(cls, format!("C11 {}", prop_ops::nk_line_pub(conf, n, k))));
+        }
+        // `relative_to`: tiny but non-zero references are fine; a reference with a zero bound is the documented panic
+        {
+            use stats_ci::Interval;
+            let rel = |a: f64, b: f64, c: f64, d: f64| -> String {
+                let (i, j) = (Interval::new(a, b).unwrap(), Interval::new(c, d).unwrap());
+                format!("C11 relto f {} {} => {}", enc_interval(&i), enc_interval(&j), guarded(|| format!("ok {}", enc_interval(&i.relative_to(&j)))))
+            };
+            let t = (2.0f64).powi(-600);
+            out.push(expect("ok", rel(1.0 * t, 2.0 * t, 0.5 * t, 4.0 * t)));
+            out.push(expect("ok", rel(1e-200, 3e-200, 1e-170, 2e-165)));
+            out.push(expect("ok", rel(1.0, 2.0, 1e-300, 1e-290)));
+            out.push(expect("panic-relative_to", rel(1.0, 2.0, 0.0, f64::INFINITY)));
+            out.push(expect("panic-relative_to", rel(1.0, 2.0, 0.0, 3.0)));
+            out.push(expect("panic-relative_to", rel(1.0, 2.0, -3.0, 0.0)));
+            out.push(expect("panic-relative_to", rel(1.0, 2.0, 0.0, 0.0)));
         }
         // the success-ratio form with a rate that implies more successes than the population (and +inf)
         for (n, r) in [(100usize, 1.006f64), (10, 1.5), (7, f64::INFINITY), (1, 3.0)] {
